@@ -929,6 +929,9 @@ def mini_exec(fn: ast.FunctionDef, args: Dict[str, object], budget: int = 2000, 
                     if classes and base.get("__kind__") in classes and isinstance(classes[base["__kind__"]].get(e.attr), ast.FunctionDef):
                         m3_ = classes[base["__kind__"]][e.attr]           # a method taken as a value
                         return lambda *a_, **k_: invoke(m3_, base, list(a_), dict(k_))
+                    if base.get("__complete__"):
+                        # the sample carries every attribute an object of its class has: a missing one is Python's AttributeError
+                        raise _Raised(f"AttributeError: '{base.get('__kind__')}' object has no attribute '{e.attr}'")
                     raise _PathEval.Unknown(f"attribute {e.attr} of a sample object")
                 return base[e.attr]
         if isinstance(e, ast.Call) and isinstance(e.func, ast.Attribute):
@@ -1477,6 +1480,17 @@ def mini_exec(fn: ast.FunctionDef, args: Dict[str, object], budget: int = 2000, 
                 base[ev(t.slice)] = v
             except (IndexError, KeyError, TypeError):
                 raise _PathEval.Unknown("item store out of range on these samples")
+        elif isinstance(t, ast.Subscript) and isinstance(t.slice, ast.Slice):
+            base = ev(t.value)
+            if type(base) is not list or not isinstance(v, (list, tuple)):
+                raise _PathEval.Unknown("slice store")
+            lo = ev(t.slice.lower) if t.slice.lower is not None else None
+            hi = ev(t.slice.upper) if t.slice.upper is not None else None
+            st_ = ev(t.slice.step) if t.slice.step is not None else None
+            try:
+                base[lo:hi:st_] = list(v)
+            except (TypeError, ValueError) as ex:
+                raise _Raised(f"{type(ex).__name__}: {ex}")
         else:
             raise _PathEval.Unknown("assignment target")
 
